@@ -524,6 +524,7 @@ def run(prog, ctx):
             res.discharged += 1
         else:
             res.violate("C10.X", "C10.X|%s|weight" % f.id, "%s does not add the merged weight to centroids_weight" % f.id, f.id)
+    C.pairing_rule(res, prog, "C10.X", "tdigest::sketch::TDigestMut", "centroids", "centroids_weight", 3)
     res.rule("C10.X", n_x, 2, "min/max folds from the centroid list")
     res.explanation = ("the expression returned at each return site of rank()/quantile() is extracted with the branch decisions of every path to it and "
                        "summaries of the accumulation loops in front of it, and evaluated on %d sampled digest states satisfying the digest invariants; "
